@@ -72,6 +72,23 @@ def roundtrip(fields, rec=None):
         raise Violation("str(create_from_str(%r)) raised %s: %s" % (text, type(e).__name__, e))
     if again != text:
         raise Violation("str(create_from_str(t)) != t: %r -> %r" % (text, again))
+    # the identifier is a mutable object with public attributes: after an attribute is assigned, the text and the derived views follow
+    # (values 9999 / None are avoided here: the 'unknown' normalisation is the constructor's business)
+    g = dict(f)
+    g["version"] = (f["version"] + 1) % 100
+    for k, top in (("device", 9998), ("project", 9998), ("customer", 9998)):
+        if f[k] is not None and f["customer"] is not None:
+            g[k] = (f[k] + 1) % top
+    for k in ("version", "device", "project", "customer"):
+        if g[k] != f[k]:
+            setattr(ident, k, g[k])
+    try:
+        text2 = str(ident)
+    except Exception as e:
+        raise Violation("str() after assigning attributes %r raised %s: %s" % (g, type(e).__name__, e))
+    if text2 != CM.fmt(g) or (g["customer"] is not None and ident.cfgid_str != CM.fmt(g)[:18]):
+        raise Violation("after assigning version/device/project/customer = %r the identifier prints as %r (cfgid_str %r); its values denote %r" % (
+            {k: g[k] for k in ("version", "device", "project", "customer")}, text2, ident.cfgid_str, CM.fmt(g)))
 
 
 def bulk_fields(tier, shard, nshards, rec, rng):
